@@ -39,9 +39,9 @@ LAYOUTS_1D = ["C", "strided", "readonly"]
 def sizes(fn, tier):
     big = tier != "quick"
     if fn in ("permanent", "permanent_laplace"):
-        return [1, 2, 3, 4] + ([5, 6] if big else [])
+        return [1, 2, 3] + ([4, 5, 6] if big else [])
     if fn in ("hafnian", "loop_hafnian", "loop_hafnian_batch"):
-        return [2, 3, 4] + ([5, 6] if big else [])
+        return [2, 4] + ([3, 5, 6] if big else [])
     if fn == "pfaffian":
         return [2, 3, 4, 6] + ([8, 10] if big else [])
     if fn in ("torontonian", "loop_torontonian"):
